@@ -23,6 +23,7 @@ type c18 struct {
 		Exec, WithOccurrence, WithoutOccurrence, IncludeBannedRuns, DiskStates    int
 		ViaMacroBody, ViaIncludedFile, Direct, Singletons, LargerSets, OtherFault int
 		ReusedOptionRuns                                                          int
+		LayoutRuns                                                                int
 		KindsBanned                                                               [nDirectiveKinds]int
 		KindsOccurred                                                             [nDirectiveKinds]int
 		Distinct, Nontrivial                                                      map[uint64]bool
@@ -58,7 +59,7 @@ func (c *c18) Stats() map[string]any {
 		"executions": c.st.Exec, "cases_with_banned_occurrence": c.st.WithOccurrence, "cases_without_banned_occurrence": c.st.WithoutOccurrence,
 		"include_banned_runs": c.st.IncludeBannedRuns, "disk_states_tried": c.st.DiskStates, "occurrence_only_in_macro_body": c.st.ViaMacroBody,
 		"occurrence_only_in_included_file": c.st.ViaIncludedFile, "occurrence_in_root": c.st.Direct, "singleton_sets": c.st.Singletons,
-		"larger_sets": c.st.LargerSets, "runs_with_reused_option_value": c.st.ReusedOptionRuns, "projects_with_another_fault": c.st.OtherFault, "kinds_banned": banned, "kinds_banned_and_occurring": occurred,
+		"larger_sets": c.st.LargerSets, "runs_with_reused_option_value": c.st.ReusedOptionRuns, "runs_with_varied_ban_hand_over": c.st.LayoutRuns, "projects_with_another_fault": c.st.OtherFault, "kinds_banned": banned, "kinds_banned_and_occurring": occurred,
 		"distinct": distinctList(c.st.Distinct), "distinct_nontrivial_keys": distinctList(c.st.Nontrivial), "samples": c.st.Samples,
 	}
 }
@@ -142,6 +143,9 @@ func (c *c18) DumpCase(seed uint64, idx int) []Case {
 	}
 	cs.Opts.Banned = banned
 	cs.Opts.SplitBans = len(banned) > 1 && r.chance(500)
+	if len(banned) > 0 && r.chance(400) {
+		cs.Opts.BanLayout = r.next() | 1
+	}
 	cs.Extra = map[string]any{"disk_seed": r.n(1 << 30)}
 	if r.chance(200) && len(banned) == 1 {
 		// option values are reused: the ban option of this case was first used together with a
@@ -317,6 +321,9 @@ func (c *c18) check(cs *Case, record bool) *Case {
 		c.st.Distinct[key] = true
 		if len(cs.Opts.Banned) > 0 {
 			c.st.Nontrivial[key] = true
+		}
+		if cs.Opts.BanLayout != 0 {
+			c.st.LayoutRuns++
 		}
 		if len(cs.Opts.Banned) == 1 {
 			c.st.Singletons++
